@@ -116,7 +116,7 @@ def route_text(u: dict) -> str:
     if u['origin'] != 'none':
         t += ['origin', u['origin']]
     if u['aspath'] != 'none':
-        t += ['as-path', {'short': '[ 65010 65020 ]', 'four': '[ 65010 4200000000 65536 ]', 'set': '[ 65010 ] ( 65020 65030 )'}[u['aspath']]]
+        t += ['as-path', {'short': '[ 65010 65020 ]', 'four': '[ 65010 4200000000 65536 ]', 'set': '[ 65010 ] ( 65020 65030 )', 'fourset': '[ 65010 4200000000 ] ( 65030 65040 )'}[u['aspath']]]
     if u['med'] != 'none':
         t += ['med', {'ten': '10', 'max': '4294967295'}[u['med']]]
     if u['pref'] != 'none':
